@@ -90,6 +90,12 @@ def bounded_search(pid, known_kinds):
                 if name == "store-search":
                     w["seed"] = argv[1]
                 findings.append(w)
+    if pid == "C03":
+        import crashsearch
+        r = crashsearch.search(binary)
+        runs.append({"scenario": "crash (strace inject SIGKILL)", "argv": [], "exit": 0, "searched": r.get("searched"), "found": bool(r.get("found")), "evaluations": r.get("evaluations")})
+        if r.get("found"):
+            findings.append(r)
     if pid == "C09":
         import durability
         r = durability.search(binary)
